@@ -349,11 +349,19 @@ def custom_filter_episode(seed):
     _, jobs = gen.gen_instance(r, r.choice(["classic", "irregular", "recirc", "ties"]), max_jobs=3, max_machines=3, max_ops=3)
     jobs = [[(ms, max(1, d)) for ms, d in job] for job in jobs]
     inst = build_instance(jobs)
-    kind = r.choice(["longest", "drop_first", "last_job"])
+    kind = r.choice(["longest", "drop_first", "last_job", "flaky"])
+    flaky = {"fail_next": False}
 
     def user_filter(dispatcher, operations):
+        if flaky["fail_next"]:
+            # (a filter that depends on something not ready yet - a lazily loaded table, a service: it raises, the caller retries)
+            flaky["fail_next"] = False
+            raise RuntimeError("user filter not ready")
         if not operations:
             return operations
+        if kind == "flaky":
+            top = max(o.duration for o in operations)
+            return [o for o in operations if o.duration == top]
         if kind == "longest":
             top = max(o.duration for o in operations)
             return [o for o in operations if o.duration == top]
@@ -367,7 +375,8 @@ def custom_filter_episode(seed):
     from job_shop_lib.graphs.graph_updaters import ResidualGraphUpdater
     res_graph = r.choice([build_disjunctive_graph, build_agent_task_graph])(inst)
     ResidualGraphUpdater(d, res_graph)
-    out = {"C01": [], "C02": [], "C11": [], "C16": [], "C17": [], "C06": []}
+    out = {"C01": [], "C02": [], "C11": [], "C16": [], "C17": [], "C06": [], "C05": []}
+    bare = jsl.Dispatcher(inst, ready_operations_filter=user_filter)
     tr = gen.Tracker(jobs)
     recorded = []
     while not tr.done():
@@ -389,6 +398,24 @@ def custom_filter_episode(seed):
         # C11: the earliest-start observer reports, for every unscheduled operation, its earliest start minus the current time - where
         # the current time is what the (filtered) available operations imply
         v = View(inst, lists)
+        if kind == "flaky":
+            # on a dispatcher WITHOUT observers (nothing has asked anything in this state yet) the filter fails once; the caller catches
+            # the error and asks again: the second answer is the filtered one
+            bare.dispatch(op, None if m == "none" else int(m))
+            flaky["fail_next"] = True
+            try:
+                bare.available_operations()
+            except RuntimeError:
+                pass
+            flaky["fail_next"] = False
+            got_ids = sorted(o.operation_id for o in bare.available_operations())
+            want_ids = sorted(o.operation_id for o in user_filter(bare, v.raw_ready()))
+            if got_ids != want_ids:
+                out["C05"].append(("available", f"after {what}: the user's filter failed once and was asked again: available_operations() = "
+                                   f"{got_ids}, the filter keeps {want_ids}"))
+            jobs_ = sorted(bare.available_jobs())
+            if jobs_ != sorted({o.job_id for o in user_filter(bare, v.raw_ready())}):
+                out["C05"].append(("available_jobs", f"after {what}: available_jobs() = {jobs_} after the filter's failed first attempt"))
         avail = user_filter(d, v.raw_ready())
         now = v.min_start(avail)
         if d.current_time() != now:
